@@ -135,7 +135,7 @@ def run(ctx):
             continue
         ctx.nontrivial(cls + ":" + kind)
         ctx.dist("detected_" + cls + "_" + kind)
-    damage.model_probe(ctx, "C09d", cases, info, res, every=1 if quick else 4)
+    damage.model_probe(ctx, "C09d", cases, info, res, every=2 if quick else 4)
     # the directed history of the known finding
     k = damage.open_band_last_hunk_case(ctx)
     ctx.count()
